@@ -271,7 +271,7 @@ def hole_pattern(rng, ny, nx, kind=None):
     return holes, kind
 
 
-def cf2d(rng, *, ny=None, nx=None, bounds=None, holes=None, shoc_simple=False, as_coords=None, invalid=None, bad_bounds=None, overlap=False):
+def cf2d(rng, *, ny=None, nx=None, bounds=None, holes=None, shoc_simple=False, as_coords=None, invalid=None, bad_bounds=None, overlap=False, lon_transposed=False):
     ny = ny or rng.randint(1, 5)
     nx = nx or rng.randint(1, 5)
     if bounds is None:
@@ -339,6 +339,9 @@ def cf2d(rng, *, ny=None, nx=None, bounds=None, holes=None, shoc_simple=False, a
     lat[hole] = numpy.nan
     latname, lonname = ('latitude', 'longitude') if rng.random() < 0.5 else ('lat2', 'lon2')
     coordvars = {latname: ((ydim, xdim), lat, lat_attrs), lonname: ((ydim, xdim), lon, lon_attrs)}
+    if lon_transposed:
+        # the longitude stored with its dimensions the other way round (auxiliary coordinates may order them freely)
+        coordvars[lonname] = ((xdim, ydim), numpy.ascontiguousarray(lon.T), lon_attrs)
     attrs = {'ems_version': 'v1.2.3'} if shoc_simple else {}
     if as_coords:
         ds = xarray.Dataset(data_vars=variables, coords=coordvars, attrs=attrs)
@@ -349,7 +352,8 @@ def cf2d(rng, *, ny=None, nx=None, bounds=None, holes=None, shoc_simple=False, a
         ds = xarray.Dataset(data_vars={**coordvars, **variables}, attrs=attrs)
     spec.update({'latname': latname, 'lonname': lonname, 'lat': lat, 'lon': lon, 'hole': hole,
                  'label': f'{"shoc_simple" if shoc_simple else "cf2d"} {ny}x{nx} bounds={bool(bounds)} holes={hole_kind}'
-                          + (f' refused-bounds={bad_bounds}' if bad_bounds else '') + (' overlapping' if overlap else ''),
+                          + (f' refused-bounds={bad_bounds}' if bad_bounds else '') + (' overlapping' if overlap else '')
+                          + (' lon(x,y)' if lon_transposed else ''),
                  'kinds': {'face': [ydim, xdim]}, 'kind_order': ['face']})
     return DS('shoc_simple' if shoc_simple else 'cf2d', ds, spec)
 
@@ -539,7 +543,7 @@ def derive_tables(rng, faces, shuffle_edges=True):
 
 def ugrid(rng, *, w=None, h=None, start_index=None, fill=None, transposed=None, supplied=None,
           edge_dim_declared=None, coords_as_coords=None, face_coords=None, mesh=None, variety=True,
-          invalid=None, bare_zero_based=(), extra_width=0, stale_attrs=(), phantom_edge_dim=False, mesh_var_dim=False):
+          invalid=None, bare_zero_based=(), extra_width=0, stale_attrs=(), phantom_edge_dim=False, mesh_var_dim=False, node_dtypes=None):
     # stale_attrs: mesh attributes naming optional connectivity variables that are not in the file (emsarray documents this case)
     # phantom_edge_dim: an edge_dimension attribute although nothing is stored on edges (xarray drops unused dimensions)
     # mesh_var_dim: the mesh topology dummy variable has a length-one dimension (`int mesh(one)`), as some writers make it
@@ -647,6 +651,13 @@ def ugrid(rng, *, w=None, h=None, start_index=None, fill=None, transposed=None, 
         mesh_attrs['face_face_connectivity'] = 'Mesh2_face_links'
     nx = numpy.array([x for x, y in nodes], dtype='f8') / F8
     ny_ = numpy.array([y for x, y in nodes], dtype='f8') / F8
+    y_off = 0.0
+    if node_dtypes == 'x_f4':
+        # node longitudes in single precision (exactly representable), node latitudes in double precision with digits single
+        # precision cannot hold
+        nx = nx.astype('f4')
+        y_off = 2.0 ** -30
+        ny_ = ny_ + y_off
     coordvars = {'Mesh2_node_x': ((ndim,), nx, {'standard_name': 'longitude', 'units': 'degrees_east'}),
                  'Mesh2_node_y': ((ndim,), ny_, {'standard_name': 'latitude', 'units': 'degrees_north'})}
     fx = fy = None
@@ -676,7 +687,7 @@ def ugrid(rng, *, w=None, h=None, start_index=None, fill=None, transposed=None, 
             # the edge dimension is declared but no connectivity variable uses it: give it a size
             # through a data variable (a dimension no variable uses has no size in xarray)
             ds['edge_marker'] = xarray.DataArray(numpy.arange(ne, dtype='f8') + 7000, dims=[edim])
-    spec = {'nodes': nodes, 'faces': faces, 'edge_node': edge_node, 'face_edge': face_edge,
+    spec = {'y_off': y_off, 'nodes': nodes, 'faces': faces, 'edge_node': edge_node, 'face_edge': face_edge,
             'edge_face': edge_face, 'face_face': face_face, 'supplied': sorted(supplied), 'enc': enc,
             'has_edge_dim': has_edge_dim, 'edge_dim_declared': 'edge_dimension' in mesh_attrs,
             'coords_as_coords': coords_as_coords, 'face_coords': face_coords, 'fx': fx, 'fy': fy,
